@@ -675,6 +675,16 @@ fn check_decl_identifiers(file: &File, scope: &Scope) -> Result<File, Diagnostic
                             }
                     }
                 }
+                // A fixed enum field needs the enum declaration: visit it first so
+                // that the declarations are sorted with the enum before its user.
+                // The identifier itself is validated by check_fixed_fields.
+                FieldDesc::FixedEnum { enum_id, .. } => {
+                    if let Some(enum_decl @ Decl { desc: DeclDesc::Enum { .. }, .. }) =
+                        scope.typedef.get(enum_id)
+                    {
+                        bfs(enum_decl, context, scope, diagnostics)
+                    }
+                }
                 // Ignore other fields.
                 _ => (),
             }
